@@ -180,7 +180,8 @@ fn generate_enum(
                 fn from(s: #ident) -> Self {
                     match s {
                         #(#match_arms,)*
-                        #ident ::_Custom(_s) => Self::_Custom(_s),
+                        // The type might be known to `TimelineEventType` under another kind.
+                        #ident ::_Custom(_s) => Self::from(&*_s.0),
                     }
                 }
             }
